@@ -126,6 +126,8 @@ Theorem model_pins_current :
   [("retrieve_validate_block", "9163920a4c81325b")%string;
    ("retrieve_try_to_validate_prefix", "bd285a7dbf4e5606")%string;
    ("servermap_got_signature_one_share", "df7d2e01521ee153")%string;
-   ("servermap_try_to_set_pubkey", "9b3fe4c5d6331ab7")%string].
+   ("servermap_try_to_set_pubkey", "9b3fe4c5d6331ab7")%string;
+   ("servermap_got_results", "60636861fd94f8ae")%string;
+   ("servermap_got_corrupt_share", "bc3bac0912a7b816")%string].
 Proof. reflexivity. Qed.
 Print Assumptions model_pins_current.
